@@ -3,6 +3,7 @@ import ShVerif.Model.C21
   C21 — helper definitions and lemmas for the property theorems (ShVerif/Props/C21.lean).
   Core Lean only.
 -/
+set_option linter.unusedSimpArgs false
 namespace ShVerif.C21
 open Spec
 
@@ -124,7 +125,7 @@ theorem sliceStr_eq (s : Str) (off len : Option Int) :
 theorem sliceStr_spec (s : Str) (off len : Option Int) (r : Str)
     (h : Spec.substring s off len = some r) : sliceStr s off len = r := by
   rw [sliceStr_eq, offPos_spec]
-  unfold Spec.substring at h
+  simp only [Spec.substring] at h
   have hr := startOf_range s.length off
   generalize Spec.startOf (s.length : Int) off = start at h hr ⊢
   cases len with
@@ -145,5 +146,449 @@ theorem sliceStr_spec (s : Str) (off len : Option Int) (r : Str)
         have : ¬ (((s.length - start.toNat : Nat) : Int) + l < 0) := by omega
         simp only [this, if_false]
         congr 1; omega
+
+/-! ## case conversion -/
+
+theorem convRunes_eq (f : Char → Char) (hit : Char → Bool) (all : Bool) (s : Str) :
+    convRunes f hit all s = Spec.caseConv f hit all s := by
+  induction s with
+  | nil => rfl
+  | cons c cs ih => cases all <;> simp [convRunes, Spec.caseConv, ih]
+
+theorem caseConv_congr (f : Char → Char) (h1 h2 : Char → Bool) (all : Bool) (s : Str)
+    (h : ∀ c, h1 c = h2 c) : Spec.caseConv f h1 all s = Spec.caseConv f h2 all s := by
+  have : h1 = h2 := funext h
+  rw [this]
+
+/-- `${x^pat}` … on a set scalar. -/
+theorem case_scalar_eq (x : Ext) (cfg : Cfg) (env : Env) (name s ifs arg : Str) (op : ExpOp)
+    (m : Str → Bool) (hifs : ifsOf env = .ok ifs) (hp : Plain name) (hv : env.get name = Var.ofStr s)
+    (hop : isCase op = true) (hM : x.M arg = .ok m) :
+    paramExp x cfg env { name := name, exp := some (op, arg) }
+      = .ok (convRunes (if op == .upperFirst || op == .upperAll then toUpper else toLower)
+              (fun c => m [] || m [c]) (op == .upperAll || op == .lowerAll) s, env) := by
+  cases op <;> simp [isCase] at hop <;>
+  simp [paramExp, hifs, hv, effIdx, hp.1, hp.2, isAtStar, Idx.lit, varInd_scalar, caseConvElems, hM,
+    bind, Except.bind, pure, Except.pure, Sl.toList, joinWith]
+
+/-! ## transformations -/
+
+theorem other_scalar_eq (x : Ext) (cfg : Cfg) (env : Env) (name s ifs arg : Str)
+    (hifs : ifsOf env = .ok ifs) (hp : Plain name) (hv : env.get name = Var.ofStr s) :
+    paramExp x cfg env { name := name, exp := some (.other, arg) }
+      = (otherOp x name (Var.ofStr s) s arg).map (fun r => (r, env)) := by
+  simp [paramExp, hifs, hv, effIdx, hp.1, hp.2, isAtStar, Idx.lit, varInd_scalar,
+    bind, Except.bind, pure, Except.pure]
+  cases otherOp x name (Var.ofStr s) s arg <;> simp [Except.map]
+
+/-! ## indirection -/
+
+theorem indirect_eq (x : Ext) (cfg : Cfg) (env : Env) (name n v ifs : Str)
+    (hifs : ifsOf env = .ok ifs) (hp : Plain name) (hv : env.get name = Var.ofStr n) (hn : n ≠ [])
+    (hval : (env.get n).string = .ok v) :
+    paramExp x cfg env { name := name, excl := true } = .ok (v, env) := by
+  simp [paramExp, hifs, hv, effIdx, hp.1, hp.2, isAtStar, Idx.lit, varInd_scalar, hn, hval, joinWith,
+    bind, Except.bind, pure, Except.pure]
+
+theorem indirect_unset (x : Ext) (env : Env) (name ifs : Str)
+    (hifs : ifsOf env = .ok ifs) (hp : Plain name) (hv : env.get name = Var.zero) :
+    paramExp x {} env { name := name, excl := true } = .error .indirect := by
+  simp [paramExp, hifs, hv, effIdx, hp.1, hp.2, isAtStar, Idx.lit, varInd, varIndNone, Var.string, Var.zero,
+    bind, Except.bind, pure, Except.pure]
+  rfl
+
+/-! ## quoted lists -/
+
+theorem addElemsQuoted_cur (fs : List Str) (c : Str) (l : List Str) :
+    (addElemsQuoted ⟨fs, [c]⟩ false l).flush.fields = fs ++ c :: l := by
+  induction l generalizing fs c with
+  | nil => simp [addElemsQuoted, WF.flush]
+  | cons e rest ih =>
+    have step : addElemsQuoted ⟨fs, [c]⟩ false (e :: rest) = addElemsQuoted ⟨fs ++ [c], [e]⟩ false rest := by
+      simp [addElemsQuoted, WF.flush]
+    rw [step, ih]; simp
+
+theorem addElemsQuoted_fields (l : List Str) :
+    (addElemsQuoted ⟨[], []⟩ true l).flush.fields = l := by
+  cases l with
+  | nil => simp [addElemsQuoted, WF.flush]
+  | cons e rest =>
+    have step : addElemsQuoted ⟨[], []⟩ true (e :: rest) = addElemsQuoted ⟨[], [e]⟩ false rest := by
+      simp [addElemsQuoted]
+    rw [step, addElemsQuoted_cur]; simp
+
+theorem quoted_at_eq (x : Ext) (cfg : Cfg) (env : Env) (name ifs : Str) (l : List Str)
+    (hifs : ifsOf env = .ok ifs) (hp : Plain name) (hv : env.get name = Var.ofList l) :
+    fields x cfg env { name := name, idx := .at } true = .ok (l, env) := by
+  simp [fields, quotedElemFields, listElems, hifs, hv, hp.1, hp.2, isAtStar, Idx.lit, sliceElems, perElemOps,
+    addElemsQuoted_fields, bind, Except.bind, pure, Except.pure]
+
+theorem quoted_star_eq (x : Ext) (cfg : Cfg) (env : Env) (name ifs : Str) (l : List Str)
+    (hifs : ifsOf env = .ok ifs) (hp : Plain name) (hv : env.get name = Var.ofList l) :
+    fields x cfg env { name := name, idx := .star } true = .ok ([ifsJoin ifs l], env) := by
+  simp [fields, quotedElemFields, listElems, hifs, hv, hp.1, hp.2, isAtStar, Idx.lit, sliceElems, perElemOps,
+    addElemsQuoted_fields, bind, Except.bind, pure, Except.pure, Sl.toList]
+
+theorem quoted_at_unset (x : Ext) (cfg : Cfg) (env : Env) (name ifs : Str)
+    (hifs : ifsOf env = .ok ifs) (hp : Plain name) (hv : env.get name = Var.zero) :
+    fields x cfg env { name := name, idx := .at } true = .ok ([], env) := by
+  simp [fields, quotedElemFields, listElems, hifs, hv, hp.1, hp.2, isAtStar, Idx.lit,
+    addElemsQuoted_fields, bind, Except.bind, pure, Except.pure]
+
+theorem quoted_positional_at (x : Ext) (cfg : Cfg) (env : Env) (ifs : Str) (l : List Str)
+    (hifs : ifsOf env = .ok ifs) (hv : env.get ['@'] = Var.ofList l) :
+    fields x cfg env { name := ['@'] } true = .ok (l, env) := by
+  simp [fields, quotedElemFields, listElems, hifs, hv, isAtStar, Idx.lit, sliceElems, perElemOps,
+    addElemsQuoted_fields, bind, Except.bind, pure, Except.pure]
+
+theorem quoted_positional_star (x : Ext) (cfg : Cfg) (env : Env) (ifs : Str) (l : List Str)
+    (hifs : ifsOf env = .ok ifs) (hv : env.get ['*'] = Var.ofList l) :
+    fields x cfg env { name := ['*'] } true = .ok ([ifsJoin ifs l], env) := by
+  simp [fields, quotedElemFields, listElems, hifs, hv, isAtStar, Idx.lit, sliceElems, perElemOps,
+    addElemsQuoted_fields, bind, Except.bind, pure, Except.pure, Sl.toList]
+
+/-! ## per-element operators -/
+
+theorem mapMExcept_ok {α β : Type} (f : α → β) (l : List α) :
+    mapMExcept (fun a => (.ok (f a) : Except Err β)) l = .ok (l.map f) := by
+  induction l with
+  | nil => rfl
+  | cons a as ih => simp [mapMExcept, ih, bind, Except.bind, pure, Except.pure]
+
+theorem mapMExcept_err {α β : Type} (e : Err) (a : α) (as : List α) :
+    mapMExcept (fun _ => (.error e : Except Err β)) (a :: as) = .error e := by
+  simp [mapMExcept, bind, Except.bind]
+
+/-- `${s/pat/with}` on one string. -/
+def replOne (M : Str → Pat) (r : Repl) (s : Str) : Except Err Str :=
+  if r.orig.isEmpty then .ok s
+  else match M r.orig with
+    | .panic => .error .panic
+    | .err => .ok s
+    | .ok m => .ok (spliceLocs s r.with_ 0 (findAll m s r.all))
+
+theorem replaceElems_map (M : Str → Pat) (r : Repl) (l : List Str) :
+    replaceElems M r (some l) = (mapMExcept (replOne M r) l).map some := by
+  unfold replaceElems replOne
+  by_cases h : r.orig.isEmpty = true
+  · simp only [h, if_true]
+    rw [mapMExcept_ok (fun s => s)]; simp [Except.map]
+  · simp only [h, if_false, Bool.false_eq_true]
+    cases hM : M r.orig with
+    | err => simp only [Sl.toList]; rw [mapMExcept_ok (fun s => s)]; simp [Except.map]
+    | panic =>
+      cases l with
+      | nil => simp [Sl.toList, mapMExcept, Except.map, pure, Except.pure]
+      | cons a as => simp only [Sl.toList, List.isEmpty_cons, Bool.false_eq_true, if_false]; rw [mapMExcept_err]; rfl
+    | ok m => simp only [Sl.toList]; rw [mapMExcept_ok]; simp [Except.map]
+
+/-- `${s^pat}` … on one string. -/
+def caseOne (M : Str → Pat) (op : ExpOp) (arg s : Str) : Except Err Str :=
+  match M arg with
+  | .err => .ok s
+  | .panic => .error .panic
+  | .ok m => .ok (convRunes (if op == .upperFirst || op == .upperAll then toUpper else toLower)
+      (fun c => m [] || m [c]) (op == .upperAll || op == .lowerAll) s)
+
+theorem caseConvElems_map (M : Str → Pat) (op : ExpOp) (arg : Str) (l : List Str)
+    (hnp : M arg = .panic → l ≠ []) :
+    caseConvElems M op arg (some l) = (mapMExcept (caseOne M op arg) l).map some := by
+  unfold caseConvElems caseOne
+  cases hM : M arg with
+  | err => simp only; rw [mapMExcept_ok (fun s => s)]; simp [Except.map]
+  | panic =>
+    cases l with
+    | nil => exact absurd rfl (hnp hM)
+    | cons a as => simp only; rw [mapMExcept_err]; rfl
+  | ok m => simp only [Sl.toList]; rw [mapMExcept_ok]; simp [Except.map]
+
+/-- The operator of `pe` applied to one string as if it were the value of a scalar variable. -/
+def scalarOp (x : Ext) (pe : PE) (s : Str) : Except Err Str :=
+  (paramExp x {} [(pe.name, Var.ofStr s)] { pe with idx := .none }).map (·.1)
+
+@[simp] theorem ifsJoin_single (ifs a : Str) : ifsJoin ifs [a] = a := by simp [ifsJoin, joinWith]
+@[simp] theorem joinWith_single (sep a : Str) : joinWith sep [a] = a := by simp [joinWith]
+
+theorem get_single (n : Str) (v : Var) : Env.get [(n, v)] n = v := by
+  simp [Env.get, List.find?]
+
+theorem ifsOf_single (n s : Str) : ∃ ifs, ifsOf [(n, Var.ofStr s)] = .ok ifs := by
+  unfold ifsOf
+  by_cases h : n = sOf "IFS"
+  · subst h; simp [get_single, Var.string]
+  · have hb : (n == sOf "IFS") = false := beq_eq_false_iff_ne.mpr h
+    have : Env.get [(n, Var.ofStr s)] (sOf "IFS") = Var.zero := by
+      simp [Env.get, List.find?, hb]
+    simp [this]
+
+theorem scalarOp_repl (x : Ext) (pe : PE) (r : Repl) (s : Str) (hp : Plain pe.name)
+    (h1 : pe.excl = false) (h2 : pe.length = false) (h3 : pe.slice = none) (h4 : pe.repl = some r) :
+    scalarOp x pe s = replOne x.M r s := by
+  obtain ⟨ifs, hifs⟩ := ifsOf_single pe.name s
+  unfold scalarOp
+  simp [paramExp, hifs, get_single, effIdx, hp.1, hp.2, isAtStar, Idx.lit, varInd_scalar, h1, h2, h3, h4,
+    replaceElems_map, bind, Except.bind, pure, Except.pure]
+  cases hr : replOne x.M r s <;> simp [mapMExcept, hr, Except.map, bind, Except.bind, pure, Except.pure, Sl.toList, joinWith]
+
+theorem scalarOp_remove (x : Ext) (pe : PE) (op : ExpOp) (arg s : Str) (hp : Plain pe.name)
+    (h1 : pe.excl = false) (h2 : pe.length = false) (h3 : pe.slice = none) (h4 : pe.repl = none)
+    (h5 : pe.exp = some (op, arg)) (hop : isRemove op = true) :
+    scalarOp x pe s = removePattern x.M s arg (op == .remSmallSuf || op == .remLargeSuf)
+      (op == .remSmallPre || op == .remSmallSuf) := by
+  obtain ⟨ifs, hifs⟩ := ifsOf_single pe.name s
+  unfold scalarOp
+  cases op <;> simp [isRemove] at hop <;>
+  simp [paramExp, hifs, get_single, effIdx, hp.1, hp.2, isAtStar, Idx.lit, varInd_scalar, h1, h2, h3, h4, h5,
+    removePatternElems, mapMExcept, bind, Except.bind, pure, Except.pure, Sl.toList] <;>
+  (cases hr : removePattern x.M s arg _ _ <;> simp [Except.map, joinWith])
+
+theorem scalarOp_case (x : Ext) (pe : PE) (op : ExpOp) (arg s : Str) (hp : Plain pe.name)
+    (h1 : pe.excl = false) (h2 : pe.length = false) (h3 : pe.slice = none) (h4 : pe.repl = none)
+    (h5 : pe.exp = some (op, arg)) (hop : isCase op = true) :
+    scalarOp x pe s = caseOne x.M op arg s := by
+  obtain ⟨ifs, hifs⟩ := ifsOf_single pe.name s
+  unfold scalarOp
+  have hc := caseConvElems_map x.M op arg [s] (fun _ => by simp)
+  cases op <;> simp [isCase] at hop <;>
+  simp [paramExp, hifs, get_single, effIdx, hp.1, hp.2, isAtStar, Idx.lit, varInd_scalar, h1, h2, h3, h4, h5,
+    hc, mapMExcept, bind, Except.bind, pure, Except.pure, Sl.toList] <;>
+  (cases hr : caseOne x.M _ arg s <;> simp [Except.map, joinWith])
+
+theorem scalarOp_plain (x : Ext) (pe : PE) (s : Str) (hp : Plain pe.name)
+    (h1 : pe.excl = false) (h2 : pe.length = false) (h3 : pe.slice = none) (h4 : pe.repl = none)
+    (h5 : pe.exp = none) :
+    scalarOp x pe s = .ok s := by
+  obtain ⟨ifs, hifs⟩ := ifsOf_single pe.name s
+  unfold scalarOp
+  simp [paramExp, hifs, get_single, effIdx, hp.1, hp.2, isAtStar, Idx.lit, varInd_scalar, h1, h2, h3, h4, h5,
+    bind, Except.bind, pure, Except.pure, Except.map]
+
+/-- The operators that apply element by element. -/
+def PerElem (x : Ext) (pe : PE) (l : List Str) : Prop :=
+  (∃ r, pe.repl = some r) ∨
+  (pe.repl = none ∧ ∃ op arg, pe.exp = some (op, arg) ∧
+    (isRemove op = true ∨ (isCase op = true ∧ (x.M arg = .panic → l ≠ [])))) ∨
+  (pe.repl = none ∧ pe.exp = none)
+
+theorem per_elem_fields (x : Ext) (cfg : Cfg) (env : Env) (pe : PE) (ifs : Str) (l : List Str)
+    (hifs : ifsOf env = .ok ifs) (hp : Plain pe.name) (hv : env.get pe.name = Var.ofList l)
+    (hidx : pe.idx = .at) (h1 : pe.excl = false) (h2 : pe.length = false) (h3 : pe.slice = none)
+    (hop : PerElem x pe l) :
+    fields x cfg env pe true = (mapMExcept (scalarOp x pe) l).map (fun ys => (ys, env)) := by
+  rcases hop with ⟨r, h4⟩ | ⟨h4, op, arg, h5, hop⟩ | ⟨h4, h5⟩
+  · have hs : scalarOp x pe = replOne x.M r := funext (scalarOp_repl x pe r · hp h1 h2 h3 h4)
+    rw [hs]
+    simp [fields, quotedElemFields, listElems, hifs, hv, hp.1, hp.2, hidx, h1, h2, h3, h4, isAtStar, Idx.lit,
+      sliceElems, perElemOps, replaceElems_map, bind, Except.bind, pure, Except.pure]
+    cases mapMExcept (replOne x.M r) l <;> simp [Except.map, addElemsQuoted_fields]
+  · rcases hop with hop | ⟨hop, hnp⟩
+    · have hs : scalarOp x pe = fun s => removePattern x.M s arg (op == .remSmallSuf || op == .remLargeSuf)
+          (op == .remSmallPre || op == .remSmallSuf) :=
+        funext (scalarOp_remove x pe op arg · hp h1 h2 h3 h4 h5 hop)
+      rw [hs]
+      simp [fields, quotedElemFields, listElems, hifs, hv, hp.1, hp.2, hidx, h1, h2, h3, h4, h5, hop, isAtStar,
+        Idx.lit, sliceElems, perElemOps, removePatternElems, bind, Except.bind, pure, Except.pure, Sl.toList]
+      cases mapMExcept (fun s => removePattern x.M s arg (op == .remSmallSuf || op == .remLargeSuf)
+          (op == .remSmallPre || op == .remSmallSuf)) l <;> simp [Except.map, addElemsQuoted_fields]
+    · have hs : scalarOp x pe = caseOne x.M op arg := funext (scalarOp_case x pe op arg · hp h1 h2 h3 h4 h5 hop)
+      have hnr : isRemove op = false := by cases op <;> simp [isCase] at hop <;> rfl
+      rw [hs]
+      simp [fields, quotedElemFields, listElems, hifs, hv, hp.1, hp.2, hidx, h1, h2, h3, h4, h5, hop, hnr, isAtStar,
+        Idx.lit, sliceElems, perElemOps, caseConvElems_map x.M op arg l hnp, bind, Except.bind, pure, Except.pure]
+      cases mapMExcept (caseOne x.M op arg) l <;> simp [Except.map, addElemsQuoted_fields]
+  · have hs : scalarOp x pe = fun s => .ok s := funext (scalarOp_plain x pe · hp h1 h2 h3 h4 h5)
+    rw [hs, mapMExcept_ok (fun s => s)]
+    simp [fields, quotedElemFields, listElems, hifs, hv, hp.1, hp.2, hidx, h1, h2, h3, h4, h5, isAtStar, Idx.lit,
+      sliceElems, perElemOps, addElemsQuoted_fields, bind, Except.bind, pure, Except.pure, Except.map]
+
+/-! ## searching index ranges -/
+
+theorem find_range'_some (p : Nat → Bool) (lo n k : Nat) (h : (List.range' lo n).find? p = some k) :
+    lo ≤ k ∧ k < lo + n ∧ p k = true ∧ ∀ j, lo ≤ j → j < k → p j = false := by
+  induction n generalizing lo with
+  | zero => simp at h
+  | succ n ih =>
+    rw [List.range'_succ, List.find?_cons] at h
+    cases hp : p lo with
+    | true =>
+      rw [hp] at h; cases h
+      exact ⟨Nat.le_refl _, by omega, hp, fun j h1 h2 => by omega⟩
+    | false =>
+      rw [hp] at h
+      obtain ⟨a, b, c, d⟩ := ih (lo + 1) h
+      refine ⟨by omega, by omega, c, fun j h1 h2 => ?_⟩
+      by_cases hj : j = lo
+      · subst hj; exact hp
+      · exact d j (by omega) h2
+
+theorem find_range'_none (p : Nat → Bool) (lo n : Nat) (h : (List.range' lo n).find? p = none) :
+    ∀ j, lo ≤ j → j < lo + n → p j = false := by
+  intro j h1 h2
+  rw [List.find?_eq_none] at h
+  have := h j (by rw [List.mem_range'_1]; omega)
+  simpa using this
+
+theorem findrev_range'_some (p : Nat → Bool) (lo n k : Nat)
+    (h : (List.range' lo n).reverse.find? p = some k) :
+    lo ≤ k ∧ k < lo + n ∧ p k = true ∧ ∀ j, k < j → j < lo + n → p j = false := by
+  induction n with
+  | zero => simp at h
+  | succ n ih =>
+    rw [List.range'_concat, List.reverse_append] at h
+    simp only [List.reverse_cons, List.reverse_nil, List.nil_append, List.singleton_append, List.find?_cons,
+      Nat.one_mul] at h
+    cases hp : p (lo + n) with
+    | true =>
+      rw [hp] at h; cases h
+      exact ⟨by omega, by omega, hp, fun j h1 h2 => by omega⟩
+    | false =>
+      rw [hp] at h
+      obtain ⟨a, b, c, d⟩ := ih h
+      refine ⟨a, by omega, c, fun j h1 h2 => ?_⟩
+      by_cases hj : j = lo + n
+      · subst hj; exact hp
+      · exact d j h1 (by omega)
+
+theorem findrev_range'_none (p : Nat → Bool) (lo n : Nat) (h : (List.range' lo n).reverse.find? p = none) :
+    ∀ j, lo ≤ j → j < lo + n → p j = false := by
+  intro j h1 h2
+  rw [List.find?_eq_none] at h
+  have := h j (by rw [List.mem_reverse, List.mem_range'_1]; omega)
+  simpa using this
+
+theorem upTo_zero (n : Nat) : upTo 0 n = List.range' 0 (n + 1) := by simp [upTo]
+
+/-! ## prefix / suffix removal -/
+
+theorem prefix_eq_take {s u r : Str} (h : s = u ++ r) : u = s.take u.length ∧ r = s.drop u.length ∧ u.length ≤ s.length := by
+  subst h; simp
+
+theorem suffix_eq_drop {s u r : Str} (h : s = r ++ u) :
+    u = s.drop (s.length - u.length) ∧ r = s.take (s.length - u.length) ∧ u.length ≤ s.length := by
+  subst h; simp
+
+/-- Without a newline the `.*` of the shortest-suffix expression reaches the end of the string. -/
+theorem lineEnd_no_newline (s : Str) (i : Nat) (hi : i ≤ s.length) (hnl : '\n' ∉ s) : lineEnd s i = s.length := by
+  unfold lineEnd upTo
+  cases h : (List.range' i (s.length + 1 - i)).find? (fun j => j == s.length || s.getD j ' ' == '\n') with
+  | none => rfl
+  | some k =>
+    obtain ⟨a, b, c, _⟩ := find_range'_some _ _ _ _ h
+    simp only [Bool.or_eq_true, beq_iff_eq] at c
+    rcases c with c | c
+    · exact c
+    · exfalso
+      have hk : k < s.length ∨ k = s.length := by omega
+      rcases hk with hk | hk
+      · apply hnl
+        simp only [List.getD_eq_getElem?_getD, List.getElem?_eq_getElem hk, Option.getD_some, beq_iff_eq] at c
+        rw [← c]; exact List.getElem_mem hk
+      · subst hk
+        simp [List.getD_eq_getElem?_getD] at c
+
+theorem sufShortStart_no_newline (m : Str → Bool) (s : Str) (hnl : '\n' ∉ s) :
+    sufShortStart m s = (upTo 0 s.length).reverse.find? (fun j => m (s.drop j)) := by
+  unfold sufShortStart
+  cases h0 : (upTo 0 s.length).reverse.find? (fun j => m (s.drop j)) with
+  | some k =>
+    rw [upTo_zero, List.range'_succ, List.findSome?_cons]
+    rw [lineEnd_no_newline s 0 (Nat.zero_le _) hnl, h0]
+  | none =>
+    rw [List.findSome?_eq_none_iff]
+    intro i hi
+    rw [upTo_zero, List.mem_range'_1] at hi
+    rw [lineEnd_no_newline s i (by omega) hnl, List.find?_eq_none]
+    intro j hj
+    rw [upTo_zero] at h0
+    have := findrev_range'_none _ _ _ h0 j (Nat.zero_le _)
+    rw [List.mem_reverse, upTo, List.mem_range'_1] at hj
+    simpa using this (by omega)
+
+/-- The full statement for one removal: what is removed matches, and it is the shortest / longest
+    such prefix / suffix; nothing is removed only when no prefix / suffix matches. -/
+def RemovalSpec (m : Str → Bool) (s : Str) (fromEnd shortest : Bool) (r : Str) : Prop :=
+  (∃ u, Removes fromEnd s u r ∧ m u = true ∧
+    ∀ u' r', Removes fromEnd s u' r' → m u' = true →
+      (if shortest then u.length ≤ u'.length else u'.length ≤ u.length)) ∨
+  (r = s ∧ ∀ u' r', Removes fromEnd s u' r' → m u' = false)
+
+theorem removeWith_spec (m : Str → Bool) (s : Str) (fromEnd shortest : Bool)
+    (hnl : fromEnd = true → shortest = true → '\n' ∉ s) :
+    RemovalSpec m s fromEnd shortest (removeWith m s fromEnd shortest) := by
+  unfold removeWith RemovalSpec
+  cases fromEnd <;> cases shortest <;> simp only [Bool.false_and, Bool.true_and, Bool.and_false, Bool.and_true,
+    if_false, if_true, Bool.false_eq_true, Removes]
+  · -- longest prefix
+    rw [upTo_zero]
+    cases h : (List.range' 0 (s.length + 1)).reverse.find? (fun k => m (s.take k)) with
+    | some k =>
+      obtain ⟨_, b, c, d⟩ := findrev_range'_some _ _ _ _ h
+      left
+      refine ⟨s.take k, (List.take_append_drop k s).symm, c, fun u' r' h1 h2 => ?_⟩
+      obtain ⟨e1, _, e3⟩ := prefix_eq_take h1
+      simp only [List.length_take]
+      by_cases hlt : k < u'.length
+      · have := d u'.length hlt (by omega); rw [← e1, h2] at this; cases this
+      · omega
+    | none =>
+      right
+      refine ⟨rfl, fun u' r' h1 => ?_⟩
+      obtain ⟨e1, _, e3⟩ := prefix_eq_take h1
+      have := findrev_range'_none _ _ _ h u'.length (Nat.zero_le _) (by omega)
+      rw [e1]; exact this
+  · -- shortest prefix
+    rw [upTo_zero]
+    cases h : (List.range' 0 (s.length + 1)).find? (fun k => m (s.take k)) with
+    | some k =>
+      obtain ⟨_, b, c, d⟩ := find_range'_some _ _ _ _ h
+      left
+      refine ⟨s.take k, (List.take_append_drop k s).symm, c, fun u' r' h1 h2 => ?_⟩
+      obtain ⟨e1, _, e3⟩ := prefix_eq_take h1
+      simp only [List.length_take]
+      by_cases hlt : u'.length < k
+      · have := d u'.length (Nat.zero_le _) hlt; rw [← e1, h2] at this; cases this
+      · omega
+    | none =>
+      right
+      refine ⟨rfl, fun u' r' h1 => ?_⟩
+      obtain ⟨e1, _, e3⟩ := prefix_eq_take h1
+      have := find_range'_none _ _ _ h u'.length (Nat.zero_le _) (by omega)
+      rw [e1]; exact this
+  · -- longest suffix: the smallest start
+    rw [upTo_zero]
+    cases h : (List.range' 0 (s.length + 1)).find? (fun j => m (s.drop j)) with
+    | some k =>
+      obtain ⟨_, b, c, d⟩ := find_range'_some _ _ _ _ h
+      left
+      refine ⟨s.drop k, (List.take_append_drop k s).symm, c, fun u' r' h1 h2 => ?_⟩
+      obtain ⟨e1, _, e3⟩ := suffix_eq_drop h1
+      simp only [List.length_drop]
+      by_cases hlt : s.length - u'.length < k
+      · have := d (s.length - u'.length) (Nat.zero_le _) hlt; rw [← e1, h2] at this; cases this
+      · omega
+    | none =>
+      right
+      refine ⟨rfl, fun u' r' h1 => ?_⟩
+      obtain ⟨e1, _, e3⟩ := suffix_eq_drop h1
+      have := find_range'_none _ _ _ h (s.length - u'.length) (Nat.zero_le _) (by omega)
+      rw [e1]; exact this
+  · -- shortest suffix: the largest start
+    rw [sufShortStart_no_newline m s (hnl rfl rfl), upTo_zero]
+    cases h : (List.range' 0 (s.length + 1)).reverse.find? (fun j => m (s.drop j)) with
+    | some k =>
+      obtain ⟨_, b, c, d⟩ := findrev_range'_some _ _ _ _ h
+      left
+      refine ⟨s.drop k, (List.take_append_drop k s).symm, c, fun u' r' h1 h2 => ?_⟩
+      obtain ⟨e1, _, e3⟩ := suffix_eq_drop h1
+      simp only [List.length_drop]
+      by_cases hlt : k < s.length - u'.length
+      · have := d (s.length - u'.length) hlt (by omega); rw [← e1, h2] at this; cases this
+      · omega
+    | none =>
+      right
+      refine ⟨rfl, fun u' r' h1 => ?_⟩
+      obtain ⟨e1, _, e3⟩ := suffix_eq_drop h1
+      have := findrev_range'_none _ _ _ h (s.length - u'.length) (Nat.zero_le _) (by omega)
+      rw [e1]; exact this
 
 end ShVerif.C21
